@@ -271,3 +271,37 @@ Proof. intros H. unfold m_range_of, right_nbrs. now rewrite complete_adj_nth. Qe
 
 Lemma len_complete_adj n m : 0 <= n -> len (complete_adj n m) = n.
 Proof. intros H. unfold len, complete_adj. rewrite repeat_length. lia. Qed.
+
+(* ---------- statements in the form quoted by Prop_C04_mapping.v ---------- *)
+Lemma un_ok off adj R : 0 <= off -> adj_nodup adj ->
+  irs_ok (force_complete off (MUnary adj R)) = true /\ irs_ok (force_functional off (MUnary adj R)) = true /\
+  irs_ok (fst (force_surjective off (MUnary adj R))) = true /\ irs_ok (force_injective off (MUnary adj R)) = true /\
+  irs_ok (force_nondecreasing off (MUnary adj R)) = true.
+Proof. exact (un_constraints_ok (fun _ => true) off adj R). Qed.
+
+Lemma bin_ok off n m : 0 <= off -> 1 <= m ->
+  irs_ok (force_complete off (MBinary n m)) = true /\ irs_ok (force_injective off (MBinary n m)) = true /\
+  irs_ok (force_nondecreasing off (MBinary n m)) = true.
+Proof. exact (bin_constraints_ok (fun _ => true) off n m). Qed.
+
+Lemma bin_surjective_always_raises off n m : 1 <= m -> snd (force_surjective off (MBinary n m)) = true.
+Proof. exact (bin_surjective_raises (fun _ => true) off n m). Qed.
+
+Theorem mapping_transfer a l : irs_ok l = true ->
+  cnf_sat a (to_cnf l) = irs_hold a l /\ opb_sat a (to_opb l) = irs_hold a l.
+Proof. intros H. split; [now apply to_cnf_sem|now apply to_opb_sem]. Qed.
+
+(* on the complete bipartite graph every pair (i,j) is available, with the row-major identifier *)
+Lemma umap_id off n m i j : 0 <= off -> 1 <= i <= n -> 1 <= j <= m ->
+  bip_to_id off (complete_adj n m) i j = Some (off + (i - 1) * m + j).
+Proof.
+  intros Hoff Hi Hj. unfold bip_to_id. rewrite complete_adj_nth by exact Hi.
+  assert (O : forall (k : nat) start u, 1 <= u <= Z.of_nat k ->
+            znth (u - 1) (bip_offsets start (repeat (zrange 1 (m + 1)) k)) = Some (start + (u - 1) * m)).
+  { induction k as [|k IH]; intros start u Hu; [lia|]. cbn [repeat bip_offsets]. rewrite znth_cons.
+    destruct (Z.eqb_spec (u - 1) 0) as [E|E]; [f_equal; nia|].
+    replace (u - 1 - 1) with ((u - 1) - 1) by lia. rewrite IH by lia. rewrite zrange_len by lia. f_equal. nia. }
+  unfold complete_adj. rewrite O by lia.
+  rewrite (index_of_nth (zrange 1 (m + 1)) (NoDup_zrange _ _) (j - 1) j) by (rewrite znth_zrange by lia; f_equal; lia).
+  f_equal. lia.
+Qed.
